@@ -52,6 +52,7 @@ type Server struct {
 	Cmds   []byte
 	Conns  []Script
 	OnFull func()
+	RejectAuth bool // AUTH -> -ERR invalid password (the handshake goes on all the same)
 	Margin time.Duration
 
 	ln     net.Listener
@@ -170,7 +171,11 @@ func (s *Server) serve(i int, c net.Conn) {
 				s.mu.Lock()
 				s.events = append(s.events, Event{Kind: "auth", Conn: i, T: now, Text: strings.Join(args[1:], " ")})
 				s.mu.Unlock()
-				c.Write([]byte("+OK\r\n"))
+				if s.RejectAuth {
+					c.Write([]byte("-ERR invalid password\r\n"))
+				} else {
+					c.Write([]byte("+OK\r\n"))
+				}
 			case cmd == "replconf" && len(args) == 3 && strings.ToLower(args[1]) == "ack":
 				v, _ := strconv.ParseInt(args[2], 10, 64)
 				s.mu.Lock()
